@@ -34,7 +34,7 @@ theorem stationary_uses_statMatrix (T : Mat) :
       | none => none
       | some inv =>
         let x := inv.map (fun row => row.getD (T.length - 1) 0)
-        if vecMat x T == x then some x else none := rfl
+        if vecMat x T == x then some x else none := stationary_eq T
 
 /-- If some `L` is a left inverse of `A = [Tᵀ - 1 without its last row ; 1ᵀ]` (`L · A = 1`; the driver evaluates this
 certificate per input), then `T` has at most one left fixed vector with sum 1: any two are equal. -/
@@ -52,6 +52,36 @@ theorem unique_of_certificate (n : Nat) (T L : Mat) (hn : 1 ≤ n)
 
 example : mul [[-6/5, 2/5], [6/5, 3/5]] (statMatrix [[1/2, 1/2], [1/3, 2/3]]) = identity 2 ∧
     vecMat [2/5, 3/5] [[1/2, 1/2], [1/3, 2/3]] = [2/5, 3/5] ∧ ([2/5, 3/5] : Vec).sum = 1 := by decide +kernel
+
+/-! ### 2. the vector returned by the linear solve is stationary and normalised -/
+
+/-- The exact Gauss–Jordan inverse of the model is correct: whenever `inverse m` returns a matrix for a well-formed
+square `m`, that matrix is well-formed and a two-sided inverse.  (Proved from the elimination rounds, no certificate
+assumed.) -/
+theorem inverse_sound (n : Nat) (m inv : Mat) (h : m.length = n ∧ ∀ r ∈ m, r.length = n)
+    (hi : inverse m = some inv) :
+    (inv.length = n ∧ ∀ r ∈ inv, r.length = n) ∧ mul m inv = identity n ∧ mul inv m = identity n :=
+  inverse_spec (n := n) h hi
+
+example : inverse [[2, 1], [1, 1]] = some [[1, -1], [-1, 2]] := by decide +kernel
+
+/-- Whenever `stationary T` returns a vector `x` (well-formed square `T`), `x` is a left fixed vector of `T` and its
+entries sum to one.  Nothing is assumed about `T` beyond its shape: the first part is the model's final check, the
+second is the replaced last equation of the solved system. -/
+theorem stationary_sound (n : Nat) (T : Mat) (x : Vec) (hT : T.length = n ∧ ∀ r ∈ T, r.length = n)
+    (hs : stationary T = some x) : vecMat x T = x ∧ x.sum = 1 :=
+  let h := stationary_spec (n := n) hT hs
+  ⟨h.1, h.2.1⟩
+
+/-- Whenever `stationary T` returns `x`, every left fixed vector of `T` with sum one equals `x`
+(the computed inverse is itself the uniqueness certificate of `unique_of_certificate`). -/
+theorem stationary_unique (n : Nat) (T : Mat) (x y : Vec) (hT : T.length = n ∧ ∀ r ∈ T, r.length = n)
+    (hs : stationary T = some x) (hy : vecMat y T = y) (sy : y.sum = 1) : y = x := by
+  obtain ⟨hfix, hsum, inv, hw, hl⟩ := stationary_spec (n := n) hT hs
+  have hn : 1 ≤ n := by rw [← hT.1]; exact (stationary_some hs).1
+  exact unique_of_certificate n T inv hn hT hw hl y x hy hfix sy hsum
+
+example : stationary [[1/2, 1/2], [1/3, 2/3]] = some [2/5, 3/5] := by decide +kernel
 
 /-! ### 4. zero-padding a stationary vector of a closed class -/
 
